@@ -1359,10 +1359,25 @@ func (r *c18Runner) roundingSensitive(pe parser.Expr, t int64) bool {
 		if d.Err != "" || sm.Err != "" {
 			return nil
 		}
+		var sd *c18Answer // the server's own L - R, asked only when needed
 		for k, ps := range d.Series {
 			ss := sm.Series[k]
 			for i, p := range ps {
 				dv := math.Abs(p.V)
+				if dv == 0 && i < len(ss) && ss[i].V != 0 && be.LHS.String() != be.RHS.String() {
+					// upstream computes both operands to the very same float; each operand of the server may be one
+					// rounding step away from it: if the server's own operands differ by no more than the tolerance
+					// (without being equal) the comparison may go either way there
+					if sd == nil {
+						sd = r.srv.instant(r.db, sub.String(), t)
+					}
+					if sp := sd.Series[k]; sd.Err == "" && len(sp) > i {
+						if v := math.Abs(sp[i].V); v != 0 && (v <= 1e-9*math.Abs(ss[i].V) || v <= 1e-12) {
+							sens = true
+						}
+					}
+					continue
+				}
 				if dv == 0 || math.IsNaN(dv) || math.IsInf(dv, 0) || i >= len(ss) {
 					continue
 				}
@@ -1537,7 +1552,13 @@ func c18Guard(f func()) (died *c18ServerDied) {
 
 func c18RunReplay(rep *kit.Report, def, seg *c18Server) {
 	var c c18Case
-	if d := c18Guard(func() { c = c18RunReplay1(rep, def, seg) }); d != nil {
+	if err := kit.LoadReplay(&c); err != nil {
+		c18Fatal("replay: %v", err)
+	}
+	if c.Layout == "" {
+		c.Layout = c18LayDefault
+	}
+	if d := c18Guard(func() { c18RunReplay1(rep, def, seg) }); d != nil {
 		l := c18LayDefault
 		if d.srv == seg {
 			l = c.Layout
